@@ -186,7 +186,21 @@ func genC19(r *h.Rng, tier string, idx int) *h.Plan {
 	all := append(append([]string{}, c19Mutating...), c19Revealing...)
 	n := r.Range(6, 20)
 	for i := 0; i < n; i++ {
-		switch r.Weighted([]int{12, 1, 1, 1, 1, 1}) {
+		switch r.Weighted([]int{12, 1, 1, 1, 1, 1, 2}) {
+		case 6:
+			// a key set or changed through the facts API, as the property fact it is -
+			// with an id of the caller's choosing, which a property fact does not keep
+			// (the callers go on presenting "wk" / "rk": right only while that is the key)
+			prop := r.Pick([]string{"!writeKey", "!writeKey", "!readKey"})
+			val := r.Pick([]string{"wk", "wk2", "rk", "rk2"})
+			op := h.Op{K: "addfact", Loc: "L", Id: r.Pick([]string{"lock", "", "key1"}), J: map[string]interface{}{prop: val}}
+			switch r.Intn(3) {
+			case 0:
+				op.RK, op.WK = "rk", "wk"
+			case 1:
+				op.RK, op.WK = "rk2", "wk2"
+			}
+			p.Ops = append(p.Ops, op)
 		case 0:
 			p.Ops = append(p.Ops, c19Op(r.Pick(all), r.Pick(c19Callers), i))
 		case 1:
